@@ -34,18 +34,21 @@ the property's format list); addresses >= 2^30 (TLC integers); several source fi
 hosts; stderr warnings; empty (zero-length) records; mixed granularity / mixed default formats in one call;
 -m >= 2 with Intel-16/32 and -m with non-Intel formats (manual: -m is for the Intel formats of the PICs).
 
-Findings on the pinned tree (known_findings/C06.json, proposed_fixes/C06-*.diff + .md), each reproduced with the
-real binary and predicted by the pinned operational model: MOS running checksum; MOS terminator count constant 4;
-Tektronix byte sums instead of hex-digit sums; Intel-32 bank logic wrong for granularity > 1; line length not rounded
-to whole address units for granularity 4/8 (wrong addresses, SIGSEGV with -m 1); S-record count byte overflow for
--l > 250..252; S-record type chosen before -R/-a; Intel-16 offset wrap for a record > 64 KiB - 16; -r ignored for
--segment != code.  With all proposed diffs applied (scratch copy) the check passes without any known finding and
-the real output equals Emit(c, {}) in every representable case.
+Findings on the pinned tree d9f49b6 (known_findings/C06.json, proposed_fixes/C06-*.diff + .md), each reproduced with
+the real binary and predicted by the pinned operational model (Emit(c, PinnedDevs)): MOS running checksum; MOS
+terminator count constant 4; Tektronix byte sums instead of hex-digit sums; Intel-32 bank logic wrong for
+granularity > 1; line length not rounded to whole address units for granularity 4/8 (wrong addresses, SIGSEGV with
+-m 1); S-record count byte overflow for -l > 250..252; S-record type chosen before -R/-a; Intel-16 offset wrap for a
+record > 64 KiB - 16; -r ignored for -segment != code.  The repairs have been applied to /repo (entries are
+"fixed"): the check now passes without any finding and the real output equals Emit(c, {}) in every representable
+case; taking a repair out again is reported as VIOLATION naming the deviation (selftest mutants r_*).  The pinned
+model stays in the specification: it is what attributes a failure to a known cause instead of "unexplained".
 
 Binding shown (./check C06 --selftest; selftest/c06_mutants.py):
  (a) corrupted recorded fields (checksum byte, removed line, address changed with a consistent checksum) of real
      Moto/Intel/Intel16/Intel32/Atmel/C outputs: all 18 rejected by TLC, the 6 unmodified ones accepted;
- (b) 17 source mutations of p2hex.c/headids.c on scratch copies (all compile; ctest 201/201 as p2hex is not run by any
+ (b) source mutations of p2hex.c/headids.c on scratch copies (first run on the pinned tree, numbers below; the stored
+     set selftest/c06_mutants.py applies to the repaired tree and adds r_* = each repair reverted) (all compile; ctest 201/201 as p2hex is not run by any
      test): S-record checksum `^ 0xff` -> `^ 0xfe` (2274 violations), S5 count +1 (694), Intel checksum without the +1
      (4432), Intel-32 `FirstBank = True` dropped (301), `ErgStart += Relocate` removed (2565), -a subtraction removed
      (3409), Atmel address bytes `>> z` dropped (337), default format of 65xx -> Intel (12), MOS address +1 (681;
@@ -318,7 +321,7 @@ def report_case(rep, bld, c, res, v, state):
     if not vv["representable"]:
         state["unrepresentable"] += 1
     if vv["ok"] and v["csyn"]:
-        if v["model"] == "none" and state["drift_model"] < 5:
+        if v["model"] == "none" and vv["representable"] and state["drift_model"] < 5:
             state["drift_model"] += 1
             rep.drift("output valid and decodes right but differs from the operational model's line splitting: %s %s"
                       % (c["origin"], " ".join(res["cmd"])))
